@@ -70,6 +70,21 @@ func (m *Snapshots) Step(c *sim.Cluster) *common.Violation {
 			}
 		}
 	}
+	// a snapshot received from a leader brings its configuration with it: the
+	// receiving node's log never held that entry, but it is part of what the
+	// node has committed from then on (a later local snapshot carries it)
+	for i, n := range c.Nodes {
+		for _, sn := range n.Sn.Snaps {
+			if sn.Local || len(sn.Meta.Configuration) == 0 {
+				continue
+			}
+			if cfg, err := raft.VerifDecodeConfiguration(sn.Meta.Configuration); err == nil {
+				if _, ok := m.confSeen[i][cfg.Index]; !ok {
+					m.confSeen[i][cfg.Index] = sim.CanonConf(sn.Meta.Configuration)
+				}
+			}
+		}
+	}
 	auth := m.A.Indices()
 	for i, n := range c.Nodes {
 		for j, sn := range n.Sn.Snaps {
